@@ -27,7 +27,8 @@ class PreprocessorError(Exception):
 def _gcc_filter(fname: str, fp: typing.TextIO) -> str:
     new_output = io.StringIO()
     keep = True
-    fname = fname.replace("\\", "\\\\")
+    # the marker must name exactly this file: include the opening quote
+    fname = '"' + fname.replace("\\", "\\\\")
 
     for line in fp:
         if line.startswith("# "):
@@ -266,7 +267,7 @@ def _pcpp_filter(
     # isn't what a typical user of cxxheaderparser would want, so we strip out
     # the line directives and any content that isn't in our original file
 
-    line_ending = f'{fname}"\n'
+    line_ending = f'"{fname}"\n'
 
     new_output = io.StringIO()
     keep = True
